@@ -71,11 +71,22 @@ static void put_obs(const char* base, const char* content, size_t len, const Zix
       if (!as_path[i]) {
         vputhex(stdout, (const unsigned char*)text, v[i].length);
       } else {
+#ifdef C10_WIN
+        // Windows configuration: '\\' separates too; every separator is printed as '/', runs collapsed
+        for (size_t k = 0; k < v[i].length; ++k) {
+          const bool sep  = text[k] == '/' || text[k] == '\\';
+          const bool psep = k > 0 && (text[k - 1] == '/' || text[k - 1] == '\\');
+          if (!(sep && psep)) {
+            printf("%02x", sep ? (unsigned)'/' : (unsigned)(unsigned char)text[k]);
+          }
+        }
+#else
         for (size_t k = 0; k < v[i].length; ++k) {
           if (!(text[k] == '/' && k > 0 && text[k - 1] == '/')) {
             printf("%02x", (unsigned char)text[k]);
           }
         }
+#endif
       }
     }
     fputc(' ', stdout);
